@@ -11,6 +11,8 @@ package lossless
 import (
 	"runtime"
 	"sync"
+
+	"github.com/deepteams/webp/internal/verifhook"
 )
 
 const (
@@ -209,6 +211,7 @@ func (hc *HashChain) Fill(argb []uint32, quality int, xsize, ysize int, lowEffor
 
 	// Decide between parallel and serial second pass.
 	numWorkers := runtime.GOMAXPROCS(0)
+	numWorkers = verifhook.Workers(verifhook.SiteLosslessHashChain, numWorkers)
 	if numWorkers > 1 && size > 50000 && !lowEffort {
 		hc.fillParallel(argb, xsize, size, iterMax, winSize, numWorkers)
 	} else {
@@ -352,6 +355,7 @@ func (hc *HashChain) fillParallel(argb []uint32, xsize, size, iterMax int, winSi
 		if posEnd > size-1 {
 			posEnd = size - 1
 		}
+		verifhook.Range(verifhook.SiteLosslessHashChain, posStart, posEnd)
 		go func(posStart, posEnd int) {
 			defer wg.Done()
 			fillMatchRange(hc.OffsetLength, chain, argb, xsize, size, iterMax, winSize, posStart, posEnd)
